@@ -47,6 +47,12 @@ THEOREMS = [
     "PyTrie.Props.NonVacuity3.failed_root_leaves_db",
     "PyTrie.Props.Free.op_partial",
     "PyTrie.Props.Free.op_missing_atomic",
+    "PyTrie.Props.Free.partial_of_complete_db",
+    "PyTrie.Props.Free.partial_kept_by_withholding",
+    "PyTrie.Props.Free.partial_kept_by_supplying",
+    "PyTrie.Props.Free.partial_kept_by_op",
+    "PyTrie.HexFree.Cex.partial_insert_node_needs_canon",
+    "PyTrie.HexFree.Cex.opSetDel_partial_preserved_needs_hold",
 ]
 RULE = ("tries built by generated histories (prune on/off), then a subset of node bodies removed from the database (every "
         "subset for small tries, random subsets otherwise, single nodes, everything), then one operation — get, exists, set, "
